@@ -4,7 +4,7 @@ Steps, all in a scratch worktree at the path the agent used (/tmp/mut/<prop>), n
   demo on the clean tree -> must exit 0; apply the patch; demo -> must exit non-zero; full pinned suite -> must pass."""
 import sys, os, subprocess, json, shutil
 prop, k = sys.argv[1], sys.argv[2]
-src = "/tmp/mutout/%s" % prop; wt = "/tmp/mut/%s" % prop
+src = "/tmp/mutout/%s" % prop; wt = "%s/%s" % (sys.argv[3] if len(sys.argv) > 3 else "/tmp/mut", prop)
 patch = "%s/m%s.diff" % (src, k); demo = "%s/m%s_demo.py" % (src, k); meta = "%s/m%s_meta.json" % (src, k)
 def sh(cmd, **kw): return subprocess.run(cmd, shell=True, capture_output=True, text=True, **kw)
 sh("git -C /repo worktree remove --force %s; git -C /repo worktree prune" % wt)
